@@ -165,7 +165,7 @@ func fieldDiffs(a, b interface{}) []string {
 // Returns the number of layers serialised.
 func monSer(c *ctx, f *firstDec, data []byte, heavy bool) int {
 	lab := f.label()
-	in := append([]byte(nil), data...)
+	in := exactCopy(data)
 	var p gopacket.Packet
 	if pk, _, _ := guard(func() { p = gopacket.NewPacket(in, f.dec, gopacket.DecodeOptions{DecodeStreamsAsDatagrams: true}) }); pk || p == nil {
 		return 0
